@@ -193,6 +193,32 @@ def stale_tmp_scenario():
     return problems
 
 
+def dir_tmp_scenario():
+    """A killed build whose script had created `$3` as a directory (mkdir "$3") leaves that directory behind; the next
+    build must get rid of it like of a left-over file."""
+    import signal, subprocess, time as _t
+    problems = []
+    pr = Project()
+    try:
+        pr.write("d.do", 'mkdir "$3"\necho x >"$3/file"\nif [ -e slow ]; then sleep 5; fi\n')
+        pr.write("slow", "")
+        p = subprocess.Popen(["redo-ifchange", "d"], cwd=pr.root, env=clean_env(), stdout=subprocess.DEVNULL, stderr=subprocess.DEVNULL, stdin=subprocess.DEVNULL, start_new_session=True)
+        _t.sleep(1.0)
+        try:
+            os.killpg(p.pid, signal.SIGKILL)
+        except ProcessLookupError:
+            pass
+        p.wait()
+        pr.rm("slow")
+        had = os.path.isdir(pr.path("d.redo.tmp"))
+        rc, out, err = pr.run(["redo-ifchange", "d"], timeout=60)
+        if rc != 0 or pr.read("d/file") != b"x\n" or os.path.lexists(pr.path("d.redo.tmp")):
+            problems.append(dict(how="killed while $3 was a directory", tmp_dir_was_left_by_the_kill=had, rc=rc, target_file=repr(pr.read("d/file")), tmp_left=os.path.lexists(pr.path("d.redo.tmp")), stderr=err[-400:]))
+    finally:
+        pr.destroy()
+    return problems
+
+
 def kill_window_matcher(listed_under):
     """Matcher for the two recorded findings of the "two-stage commit" family, as listed in known_findings.json under
     property `listed_under` (C10, and C01 — whose histories contain killed builds too)."""
@@ -274,6 +300,12 @@ def run(ctx):
         if probs:
             p = write_replay("C10", "stale-tmp", dict(kind="impl-monitor", problems=probs, scenario="list.do / default.lst.do: echo one >>$3; (slow); echo two >>$3.  first build killed during the slow part, then built again"))
             viol.append(Violation("C10", p, "after a killed build the next build of the target (%s) gives %s (expected 'one two'), rc %s, tmp left %r" % (probs[0]["how"], probs[0]["content"], probs[0]["rc"], probs[0]["tmp_left"])))
+    if not viol:
+        probs = dir_tmp_scenario()
+        cov["distribution"]["dir_tmp_scenario"] = 1
+        if probs:
+            p = write_replay("C10", "dir-tmp", dict(kind="impl-monitor", problems=probs, scenario='d.do: mkdir "$3"; echo x >"$3/file"; (slow).  first build killed during the slow part, then built again'))
+            viol.append(Violation("C10", p, "after a build killed while its $3 was a directory the next build of the target exits %s (temporary directory still there: %s)" % (probs[0]["rc"], probs[0]["tmp_left"])))
     # (3) the redo-stamp window
     if not viol:
         stale, info = stamp_window_scenario()
